@@ -89,6 +89,7 @@ type FuncSpec struct {
 	Binds      []CallBind
 	Implements string // interface contract this method must satisfy
 	AfterLoop  []CallAssert // "after loop N: assert e" (Ordinal = loop ordinal)
+	AllowKinds map[string]string // obligation kinds not checked in this function (assumptions, listed in the evidence)
 	NoRecursion []string   // property tags of a "no-recursion" clause: the function must not reach itself through static calls
 	Fresh      []string // names of results that are freshly allocated
 	NoSafety   bool
@@ -310,7 +311,7 @@ func parseFnHeader(s string) (name string, params []Param, ret string, body stri
 }
 
 var clauseKeywords = []string{"requires", "ensures", "modifies", "loop", "use", "pure", "inline", "allow-panic",
-	"check-overflow", "ghost", "bind", "implements", "after", "no-recursion", "function", "assume", "trusted", "before", "fresh", "no-safety", "params", "results", "induction", "axiom"}
+	"check-overflow", "ghost", "bind", "implements", "after", "no-recursion", "function", "assume", "allow-kind", "trusted", "before", "fresh", "no-safety", "params", "results", "induction", "axiom"}
 
 func startsWithKeyword(s string) (string, string, bool) {
 	for _, k := range clauseKeywords {
@@ -555,6 +556,16 @@ func (sf *SpecFile) addItem(it *rawItem, pkg string) error {
 					fs.Modifies = append(fs.Modifies, e)
 					fs.ModSrc = append(fs.ModSrc, m)
 				}
+			case "allow-kind":
+				f := strings.SplitN(l.text, " ", 2)
+				if fs.AllowKinds == nil {
+					fs.AllowKinds = map[string]string{}
+				}
+				reason := ""
+				if len(f) > 1 {
+					reason = strings.Trim(strings.TrimSpace(f[1]), `"`)
+				}
+				fs.AllowKinds[f[0]] = reason
 			case "no-recursion":
 				_, tg := extractTags(l.text)
 				if len(tg) == 0 {
